@@ -60,7 +60,8 @@ func logging(rep *kit.Report, root string) {
 		name  string
 		lines func(dir string) (string, []*logFile)
 	}
-	format := `"{status} {size} {method} {uri}"`
+	// (the last placeholder never has a value: the empty-value marker of the log directive, "-", stands for it)
+	format := `"{status} {size} {method} {uri} {>X-Absent}"`
 	cfgs := []logCfg{
 		{"one-log", func(d string) (string, []*logFile) {
 			return fmt.Sprintf("\tlog / %s/one.log %s\n", d, format), []*logFile{{path: d + "/one.log", scope: "/"}}
@@ -196,7 +197,7 @@ func logging(rep *kit.Report, root string) {
 								continue
 							}
 							if want == 1 {
-								wantLine := fmt.Sprintf("%d %d %s %s", rec.Status, rec.Body.Len(), m, p+"?k=v")
+								wantLine := fmt.Sprintf("%d %d %s %s -", rec.Status, rec.Body.Len(), m, p+"?k=v")
 								if lines[0] != wantLine {
 									f := strings.Fields(lines[0])
 									kind := "logged-status-wrong"
@@ -204,6 +205,9 @@ func logging(rep *kit.Report, root string) {
 										kind = "logged-size-wrong"
 										if len(f) >= 4 && f[1] == fmt.Sprint(rec.Body.Len()) {
 											kind = "logged-request-wrong"
+											if f[2] == m && f[3] == p+"?k=v" {
+												kind = "empty-value-marker-wrong"
+											}
 										}
 									}
 									if strings.Contains(sc, "panic") {
@@ -445,6 +449,8 @@ func reloads(rep *kit.Report, root string) {
 	var vios []pending
 	layouts := []struct{ name, directives, dest string }{
 		{"file", "log / " + filepath.Join(dir, "f.log") + " \"{uri}\"", filepath.Join(dir, "f.log")},
+		{"file-without-rotation", "log / " + filepath.Join(dir, "g.log") + " \"{uri}\" {\n\t\trotate_disable\n\t}", filepath.Join(dir, "g.log")},
+		{"two-logs-one-file-without-rotation", "log /a " + filepath.Join(dir, "h.log") + " \"{uri}\" {\n\t\trotate_disable\n\t}\n\tlog /b " + filepath.Join(dir, "h.log") + " \"{uri}\" {\n\t\trotate_disable\n\t}", filepath.Join(dir, "h.log")},
 		{"stdout", "log / stdout \"{uri}\"", outF.Name()},
 		{"stderr", "log / stderr \"{uri}\"", errF.Name()},
 		{"default-stream", "log / \"\" \"{uri}\"", errF.Name()},
@@ -481,11 +487,13 @@ func reloads(rep *kit.Report, root string) {
 				broken = fmt.Sprintf("reloads: load: %v\n%s", err, cf)
 				break
 			}
+			var toks []string
 			for step, op := range seq {
 				switch op {
 				case "request":
 					n++
 					tok := fmt.Sprintf("/a/R-%d-%d-%d-%d-", li, code, step, n)
+					toks = append(toks, tok)
 					kit.Serve(cur.Server(""), kit.Get("GET", tok, "a.test:8080"))
 					rep.Eval(1)
 					b, _ := os.ReadFile(lay.dest)
@@ -508,6 +516,14 @@ func reloads(rep *kit.Report, root string) {
 				}
 				if broken != "" {
 					break
+				}
+			}
+			// every line of the sequence is still there at its end (a later writer has not written over it)
+			if b, err := os.ReadFile(lay.dest); err == nil {
+				for ti, tok := range toks {
+					if k := strings.Count(string(b), tok); k != 1 {
+						vios = append(vios, pending{"C20/reloads/line-lost-later/" + lay.name, fmt.Sprintf("layout %s, sequence %v: at the end of the sequence request number %d has %d lines at the destination, want exactly one", lay.name, seq, ti+1, k), rcase{cf, seq, -1, k}})
+					}
 				}
 			}
 			cur.Close()
@@ -555,7 +571,7 @@ func caseSensitive(rep *kit.Report, root string) {
 
 func main() {
 	rep := kit.NewReport("C20", "exploration",
-		"logging: 8 log layouts (one, two same-scope, two same-scope around another scope, disjoint scopes, except, except and scope written as directories, except on the first of two, nested scopes) x every subset of size <=2 of 11 wrapping directives x 22 inner behaviours x 13 paths x GET/POST x Accept-Encoding, new lines of every log file counted after every request and {status}/{size} compared with what the strict writer saw; rotation: two sites sharing one rolling file under 4 spellings of its name, every line counted over the file and its backups, lines after a rotation looked for in the current file; placeholders: every format of 3 atoms over 20 atoms (vocabulary, header/cookie/query/env lookups, unknown, escaped braces, text) x 9x9 request-supplied values containing placeholder syntax, against a single-pass reference; reloads: 8 layouts writing to a file, stdout, stderr or the default stream (alone, two logs on one stream, next to an errors log on the same stream) x every sequence of 4 steps over {request, reload, reload refused at set-up, reload refused at start-up} followed by a request, every request's line counted at the destination; distinct_nontrivial = outcome classes")
+		"logging: 8 log layouts (one, two same-scope, two same-scope around another scope, disjoint scopes, except, except and scope written as directories, except on the first of two, nested scopes) x every subset of size <=2 of 11 wrapping directives x 22 inner behaviours x 13 paths x GET/POST x Accept-Encoding, new lines of every log file counted after every request and {status}/{size} compared with what the strict writer saw; rotation: two sites sharing one rolling file under 4 spellings of its name, every line counted over the file and its backups, lines after a rotation looked for in the current file; placeholders: every format of 3 atoms over 20 atoms (vocabulary, header/cookie/query/env lookups, unknown, escaped braces, text) x 9x9 request-supplied values containing placeholder syntax, against a single-pass reference; reloads: 10 layouts writing to a file (rolling or not, one or two logs on it), stdout, stderr or the default stream (alone, two logs on one stream, next to an errors log on the same stream) x every sequence of 4 steps over {request, reload, reload refused at set-up, reload refused at start-up} followed by a request, every request's line counted at the destination when it is made and again at the end of the sequence; distinct_nontrivial = outcome classes")
 	kit.Init()
 	kit.RegisterProbe()
 	kit.Log.Off.Store(true)
